@@ -16,7 +16,7 @@ ENGINES = [
     {"name": "E5 homogeneity typing", "path": "geolint/homog.py", "serves_properties": ["C03", "C17", "C09", "C11"], "kind_free_text": "dimensional-analysis type system: abstract interpretation with path enumeration, degree maps per argument symbol (geolint/hv.py), sinks = order/sign decisions, equalities, numeric returns, point constructions, affine weights"},
     {"name": "mutation self-test", "path": "geolint/selftest.py", "serves_properties": [], "kind_free_text": "in-memory textual variants of the current tree: breaking variants must be reported with the named rule, twins must be silent"},
     {"name": "E11 sign-domain membership", "path": "geolint/signdom.py", "serves_properties": ["C16"], "kind_free_text": "abstract interpretation of Triangle.contains over the finite domain of sign vectors of its barycentric determinants (exhaustive, both orientations, scalar and vectorised path) against the closed-triangle specification; closedness rules for the bound comparisons of the segment test and the boundary/coplanarity conjuncts of the polygon test"},
-    {"name": "E12 closed-form kernels", "path": "geolint/polyform.py", "serves_properties": ["C20"], "kind_free_text": "normal form of entry-wise expressions as polynomials over matrix-entry atoms compared with the Leibniz expansion; evaluation of literal fancy-index tables and constant slice patterns as index sets compared with the cofactor and Levi-Civita definitions"},
+    {"name": "E12 closed-form kernels", "path": "geolint/polyform.py", "serves_properties": ["C20", "C13"], "kind_free_text": "normal form of entry-wise expressions as polynomials over matrix-entry atoms compared with the Leibniz expansion; evaluation of literal fancy-index tables and constant slice patterns as index sets compared with the cofactor and Levi-Civita definitions"},
     {"name": "E9 kind dispatch", "path": "geolint/dispatch.py", "serves_properties": ["C09"], "kind_free_text": "decision-list evaluation of isinstance dispatch over all ordered pairs of concrete kinds with static class hierarchy; reduction graph, cycles, documented pairs, kind-blind equality short-cut"},
 ]
 
@@ -24,7 +24,6 @@ NA_COMMON = "value-level statement about floating-point results for all inputs; 
 NOT_APPLICABLE = [
     {"property_id": "C01", "reason": "join/meet exactness and round trips are numeric identities (signs and index order inside einsum); " + NA_COMMON},
     {"property_id": "C10", "reason": "perpendicular/parallel/projection/mirror are metric identities on coordinates; the only structural fact (complete initialisation of the np.empty buffer) is checked under C04"},
-    {"property_id": "C13", "reason": "containment of defining points, foci, radii and areas are numeric (Circle.area = 2*pi*r^2 was seen while reading but no shape rule separates 2*pi from pi)"},
     {"property_id": "C15", "reason": "square-root sign choices and root selection in the decomposition are value-level"},
 ]
 
@@ -106,6 +105,12 @@ CHECKS = [
         "technique": "homogeneity-degree type system (abstract interpretation over the AST with path enumeration and interprocedural re-analysis); AST rule on the resolved __eq__ of every projective class",
         "text": "For real non-zero scale factors and finite polytope vertices: every order/sign decision, equality/isclose, numeric return of a metric or measure function and point construction in the package is typed with the degree by which it scales when an argument's homogeneous coordinates are rescaled; a sink is PROVEN when both sides scale by the same positive factor (or it is a zero test), a VIOLATION when the degrees are definite and differ or carry a sign - including a projective object built directly from an array whose entries or summands have definite different degrees/signs (raw coordinates stored into an identity matrix, s*A + B) -, UNDECIDED when the expression leaves the vocabulary (inhomogeneous sums, basis_matrix/null_space of raw data). == of every concrete projective class resolves to the scalar-multiple test. Quantifies over all representatives symbolically, which no test input built with Point(x, y) can. Magnitude effects of absolute tolerances, is_multiple itself and complex scale factors are NOT decided.",
         "note": "assumes package primitives (join, meet, project, base_point, ...) return some representative of a representative-independent object; numpy operator degrees as tabulated in geolint/homog.py",
+    },
+    {
+        "id": "C13", "engine": "E12 closed-form kernels", "design_ref": "4 (E12), 5 C13",
+        "technique": "term normalisation of the returned expression into a monomial in pi, the radius and the dimension (rational coefficient, exponents linear in n, gamma terms as atoms, class helpers inlined), compared with the textbook formula",
+        "text": "ONE clause of C13's last sentence ('area and volume return the textbook measures'): Circle.area = pi r^2, Sphere.volume = pi^(n/2)/Gamma(n/2+1) r^n and Sphere.area = n pi^(n/2)/Gamma(n/2+1) r^(n-1) as monomials. A formula with the same gamma terms but another coefficient, factor or exponent is a violation; a formula written with other building blocks (Gamma(n/2), factorials) is UNDECIDED. NOT decided: all constructors (from_points, from_tangent, from_foci, from_crossratio; the loci of Circle/Ellipse/Sphere/Cone/Cylinder), center, radius, foci - numeric identities between a constructor's matrix and an accessor.",
+        "note": "thinnest claim of the set, labelled so; it exists because the clause is decidable and was violated on the pinned tree (Circle.area, fixed)",
     },
     {
         "id": "C16", "engine": "E11 sign-domain membership", "design_ref": "4 (E11), 5 C16",
